@@ -61,6 +61,10 @@ pub struct HCase {
     pub kind: TK,
     pub offered: u64,
     pub policy: Serve,
+    /// legacy transports only: the device offers the upper feature word as given instead of the
+    /// usual "no VERSION_1, nothing above bit 31"
+    #[serde(default)]
+    pub legacy_raw_offer: bool,
 }
 
 /// Run a short usage script of the driver on its reference device (the per-driver checks carry
@@ -237,11 +241,13 @@ pub fn automaton(ev: &[Ev], offered: u64, supported: u64) -> Result<u64, String>
 }
 
 pub fn check(c: &HCase, st: &mut Stats) -> Result<(), String> {
+    crate::props::drv::LEGACY_RAW_OFFER.with(|f| f.set(c.legacy_raw_offer));
     let r = usage(c, st);
+    crate::props::drv::LEGACY_RAW_OFFER.with(|f| f.set(false));
     let (ev, offered) = with(|w| (w.dev.ev.clone(), 0u64));
     let _ = offered;
     // what the device really offered (legacy transports mask VERSION_1 and the high word)
-    let eff = if c.kind.legacy() { c.offered & !(1 << 32) & 0xffff_ffff } else { c.offered };
+    let eff = if c.kind.legacy() && !c.legacy_raw_offer { c.offered & !(1 << 32) & 0xffff_ffff } else { c.offered };
     let written = automaton(&ev, eff, c.drv.supported()).map_err(|m| format!("{:?} on {:?} offered {:#x}: {}", c.drv, c.kind, c.offered, m))?;
     // the usage phase (feature-gated behaviour judged by the reference device)
     if let Err(m) = r {
@@ -273,18 +279,25 @@ pub fn grid() -> Vec<HCase> {
                     }
                 }
                 // plain subset, and the subset together with unsupported noise bits
-                v.push(HCase { drv, kind, offered: f, policy: Serve::OnNotify });
+                v.push(HCase { drv, kind, offered: f, policy: Serve::OnNotify, legacy_raw_offer: false });
                 let noise = (0x00c0_1f00_0000_4000u64 | 1 << 34 | 1 << 38 | 1 << 39 | 1 << 35 | 1 << 27) & !drv.supported();
-                v.push(HCase { drv, kind, offered: f | noise, policy: if m % 2 == 0 { Serve::Late(1) } else { Serve::Poll } });
+                v.push(HCase { drv, kind, offered: f | noise, policy: if m % 2 == 0 { Serve::Late(1) } else { Serve::Poll }, legacy_raw_offer: false });
             }
-            v.push(HCase { drv, kind, offered: u64::MAX, policy: Serve::OnNotify });
+            v.push(HCase { drv, kind, offered: u64::MAX, policy: Serve::OnNotify, legacy_raw_offer: false });
+            if kind.legacy() {
+                // legacy-interface devices that offer the upper feature word anyway
+                for hi in [1u64 << 32, 1 << 33, 1 << 32 | 1 << 33, 1 << 32 | 1 << 28 | 1 << 29] {
+                    v.push(HCase { drv, kind, offered: hi | (drv.supported() & 0xffff_ffff & !(1 << 28 | 1 << 29)), policy: Serve::OnNotify, legacy_raw_offer: true });
+                    v.push(HCase { drv, kind, offered: hi, policy: Serve::Late(1), legacy_raw_offer: true });
+                }
+            }
         }
     }
     v
 }
 
 fn strategy() -> impl Strategy<Value = HCase> {
-    (0usize..11, 0usize..5, any::<u64>(), any::<u64>(), crate::props::drv::serve_strategy()).prop_map(|(d, k, a, b, policy)| HCase { drv: ALL_D[d], kind: ALL_TK[k], offered: a & b | (a & (1 << 32)), policy })
+    (0usize..11, 0usize..5, any::<u64>(), any::<u64>(), crate::props::drv::serve_strategy()).prop_map(|(d, k, a, b, policy)| HCase { drv: ALL_D[d], kind: ALL_TK[k], offered: a & b | (a & (1 << 32)), policy, legacy_raw_offer: b >> 61 == 0 })
 }
 
 pub fn replay(_e: &str, case: &serde_json::Value) -> Result<(), String> {
